@@ -231,10 +231,10 @@ theorem zstep_inv (y : ZSt) (op : ZOp) (rest : List ZOp) (hv : validFrom y.idx (
       · simp [deltaWatched, r]
     let w0 : WR := { names := [], wildcard := true }
     have hsr : shouldRespondDelta v0.st r = .out true (v0.st.set .addr (some w0)) := by
-      have : v0.st .addr = none := rfl
-      simp only [shouldRespondDelta, shouldRespondDeltaG, deltaFirst, r, this]
+      have : v0.st r.ty = none := rfl
+      rw [delta_unwatched_is_first_request v0.st r this]
       simp only [r] at hwildReq
-      simp [hwildReq, Ty.managed, w0]
+      simp [r, hwildReq, Ty.managed, w0]
     have hw0 : ({ v0 with st := v0.st.set .addr (some w0) } : Srv).st .addr = some w0 := by simp
     have hpush := wdsPushOneT_wild y.idx { v0 with st := v0.st.set .addr (some w0) } w0
       { isReq := true, sub := (deltaWatched [] r).1, retained := y.held } hw0 rfl rfl (by simp)
